@@ -19,6 +19,14 @@ Theorem C05_convert_to_html_failures (s : source) (a : api_opts) :
   end.
 Proof. exact (convert_to_html_crash_codes_partial_list s a). Qed.
 
+Theorem C05_convert_to_markdown_failures (s : source) (a : api_opts) :
+  match convert_to_markdown s a with
+  | Ok _ => True
+  | LineError => False
+  | Crash w => In w (domain_codes ++ [21])
+  end.
+Proof. exact (convert_to_markdown_crash_codes_partial_list s a). Qed.
+
 Theorem C05_extract_raw_text_failures (s : source) :
   match extract_raw_text s with
   | Ok _ => True
@@ -57,6 +65,7 @@ Example C05_unsupported_crashes :
 Proof. vm_compute. repeat split; try reflexivity. eexists; reflexivity. Qed.
 
 Print Assumptions C05_convert_to_html_failures.
+Print Assumptions C05_convert_to_markdown_failures.
 Print Assumptions C05_extract_raw_text_failures.
 Print Assumptions C05_handlers_known.
 Print Assumptions C05_options_total.
